@@ -8,6 +8,9 @@ V=$(pwd)
 ids="$@"; [ -z "$ids" ] && ids=$(ls seeded)
 for id in $ids; do
   prop=${id%%-*}
+  # a change that breaks another property than the one it was written for is run against that property's check
+  by=$(python3 -c "import json,sys;print(json.load(open(sys.argv[1])).get('detected_by',''))" $V/seeded/$id/meta.json 2>/dev/null)
+  [ -n "$by" ] && prop=$by
   wt=/tmp/seedreg_$$_$id
   git -C /repo worktree add -q --detach $wt HEAD || { echo "$id WORKTREE-FAILED"; continue; }
   if ! git -C $wt apply --whitespace=nowarn $V/seeded/$id/patch.diff 2>/dev/null; then
